@@ -138,6 +138,7 @@ func runC08(c *Ctx) {
 		"revert mechanics: entries are undone newest-first down to and including the snapshot index, the journal and the revision stack are truncated to the snapshot, dirty counts are decreased exactly as append increased them",
 		"Copy/deepCopy never store a map, slice or pointer of the source into the copy (except the shared database, snapshot tree and immutable byte strings), and balances are never modified in place",
 		"Commit computes the intermediate root first, which finalises first; Finalise ends by clearing journal, revisions and refund",
+		"a journal entry carries every field its revert reads; the canonical-shape rules of the trie's insert and delete (C07 group) since the committed root is to depend on content only; a failed snapshot read falls through to the trie",
 	}
 	c.NotDec = []string{"that reverted observables equal their old values for all histories (value-quantified)", "root equality with a fresh replay of the non-reverted operations", "read-back through trie and snapshot layers"}
 	c.Floors["E"] = 15
@@ -288,6 +289,25 @@ func runC08(c *Ctx) {
 				}
 			}
 			c.Check("O", fmt.Sprintf("%s/the previous values recorded in %s are read before the state is changed", fnName(s.fn), s.entry), late == "", instrPos(s.in), 1, late)
+			// the entry carries every field its revert reads (a field left out of the literal is restored as the zero value)
+			set := map[string]bool{}
+			for _, r := range *s.lit.Referrers() {
+				if fa, ok := r.(*ssa.FieldAddr); ok {
+					for _, r2 := range *fa.Referrers() {
+						if st, ok := r2.(*ssa.Store); ok && st.Addr == fa {
+							set[fieldName(fa.X.Type(), fa.Field)] = true
+						}
+					}
+				}
+			}
+			var unset []string
+			for r := range c.Effects(reverts[s.entry], 0).Reads {
+				if r.Type == "kai/state."+s.entry && !set[r.Field] {
+					unset = append(unset, r.Field)
+				}
+			}
+			sort.Strings(unset)
+			c.Check("E", fmt.Sprintf("%s/the appended %s carries every field its revert reads", fnName(s.fn), s.entry), len(unset) == 0, instrPos(s.in), len(set), "not filled in at this site: "+strings.Join(unset, ", ")+" (revert would restore the zero value)")
 		}
 	}
 	c08Reverts(c)
@@ -296,4 +316,7 @@ func runC08(c *Ctx) {
 	c08Copy(c)
 	c08Snapshot(c)
 	c08ReadPath(c)
+	// "the root depends on the content only": the storage and account tries keep the canonical shape under insert and
+	// delete whatever the history (group owned by C07)
+	c07Shape(c)
 }
